@@ -209,3 +209,552 @@ def guard(ctx, fn):
         ctx.fail((ctx.cur_key or "?") + "|" + e.kind, e.detail)
     finally:
         ctx.end()
+
+
+# =============================================================================================== part "mod"
+def run_mod(E):
+    ctx, R, rng, W, B, CAP, K = E.ctx, E.R, E.rng, E.W, E.B, E.CAP, E.K
+    a, b, c, d, e, m, u, t0, t1, t2 = E.pool
+    MAXM = 40 if E.w8 else 16            # modulus digits
+    MXPM = 20 if E.w8 else 16
+    NV = K["ERR_NO_VALID"]
+
+    def nd(v):
+        return max(1, (abs(v).bit_length() + W - 1) // W)
+
+    # ------------------------------------------------------------------ bn_mod_2b
+    def mod_2b():
+        x = E.operand(CAP - 2)
+        if x > 0 and rng.random() < 0.75:
+            x = -x
+        s = rng.choice([0, 1, W - 1, W, W + 1, 2 * W, rng.randrange(0, 3 * W), rng.randrange(0, (CAP - 2) * W),
+                        abs(x).bit_length(), abs(x).bit_length() + 1, max(0, abs(x).bit_length() - 1)])
+        exp = x % (1 << s)
+        cls = sg(x)
+        if x < 0:
+            cls += "|exact" if exp == 0 else "|inexact"
+        alias = rng.randrange(2)
+        if not ctx.begin("bn_mod_2b|%s|alias%d" % (cls, alias), [hx(x), s], nontrivial=bool(x)):
+            return
+        R.bn_put(a, x)
+        E.junk(c)
+        out = a if alias else c
+        r = R.call("bn_mod_2b", out, a, s)
+        if ctx.check(not r.caught, ctx.cur_key + "|unexpected-error", {"err": r.err}):
+            E.out_bn(out, exp, ctx.cur_key)
+            E.unchanged([(a, x)], ctx.cur_key, (out,))
+
+    # ------------------------------------------------------------------ bn_mod_basic
+    def mod_basic():
+        x = E.operand(CAP - 3)
+        mm = E.operand(MAXM, zero_ok=False) if rng.random() < 0.5 else E.modulus(MAXM) * rng.choice([1, 1, 1, -1])
+        if rng.random() < 0.15:
+            x = mm * E.operand(3) + rng.choice([0, 0, 1, -1])
+        if rng.random() < 0.03:
+            mm = 0
+        if abs(x).bit_length() > (CAP - 3) * W:
+            x >>= 3 * W
+        if mm == 0:
+            if not ctx.begin("bn_mod_basic|modulus-zero", [hx(x)]):
+                return
+            R.bn_put(a, x)
+            R.bn_put(m, 0)
+            E.junk(c)
+            r = R.call("bn_mod_basic", c, a, m)
+            ctx.check(r.caught, ctx.cur_key + "|accepted", None)
+            return
+        exp = x % mm
+        alias = rng.randrange(2)
+        if not ctx.begin("bn_mod_basic|%s,%s|%s|alias%d" % (sg(x), sg(mm), "rem0" if exp == 0 else "rem", alias), [hx(x), hx(mm)], nontrivial=bool(x)):
+            return
+        R.bn_put(a, x)
+        R.bn_put(m, mm)
+        E.junk(c)
+        out = a if alias else c
+        r = R.call("bn_mod_basic", out, a, m)
+        if ctx.check(not r.caught, ctx.cur_key + "|unexpected-error", {"err": r.err}):
+            E.out_bn(out, exp, ctx.cur_key)
+            E.unchanged([(a, x), (m, mm)], ctx.cur_key, (out,))
+
+    # operand to reduce modulo mm: classes below / equal / multiple / above / long
+    def reducible(mm, maxfactor_digits, signed=True):
+        k = nd(mm)
+        c_ = rng.randrange(10)
+        if c_ == 0:
+            x = rng.randrange(mm)
+        elif c_ == 1:
+            x = mm * rng.choice([1, 1, 2, 3, rng.randrange(1, B)])
+        elif c_ == 2:
+            x = mm + rng.choice([-1, 1])
+        elif c_ == 3:
+            x = mm * mm - rng.choice([0, 1, 2]) if 2 * k <= maxfactor_digits + k else mm
+        elif c_ == 4:
+            x = (1 << (2 * k * W)) - 1 - rng.randrange(3)
+        elif c_ == 5:
+            x = rng.choice([0, 1, 2])
+        elif c_ == 6:
+            x = E.mag(rng.randrange(1, 2 * k + 1))
+        else:
+            x = E.mag(2 * k)
+        if signed and rng.random() < 0.3:
+            x = -x
+        return x
+
+    # ------------------------------------------------------------------ Barrett
+    def barrt():
+        mm = E.modulus(MAXM)
+        if rng.random() < 0.03:
+            mm = rng.choice([0, -mm])
+        if mm <= 0:
+            if not ctx.begin("bn_mod_barrt|modulus-not-positive", [hx(mm)]):
+                return
+            R.bn_put(m, mm)
+            E.junk(u, c)
+            r = R.call("bn_mod_pre_barrt", u, m)
+            ctx.check(r.caught, "bn_mod_pre_barrt|modulus-not-positive|accepted", None)
+            R.bn_put(a, 12345)
+            R.bn_put(u, 1)
+            r = R.call("bn_mod_barrt", c, a, m, u)
+            ctx.check(r.caught, ctx.cur_key + "|accepted", None)
+            return
+        k = nd(mm)
+        x = reducible(mm, CAP)
+        if rng.random() < 0.08 and 2 * k + 3 < CAP - 3:
+            x = E.mag(2 * k + rng.randrange(1, 4)) * rng.choice([1, -1])      # longer than 2k digits: documented fallback
+        if abs(x).bit_length() > (CAP - 3) * W:
+            x >>= 3 * W
+        exp = x % mm
+        rel = "lt" if abs(x) < mm else ("long" if nd(x) > 2 * k else "ge")
+        cls = "%s|%s|%s" % (sg(x), rel, "mult" if exp == 0 and x else "rem")
+        alias = rng.randrange(2)
+        if not ctx.begin("bn_mod_barrt|%s|alias%d" % (cls, alias), [hx(x), hx(mm)], nontrivial=bool(x)):
+            return
+        R.bn_put(a, x)
+        R.bn_put(m, mm)
+        E.junk(u, c)
+        r = R.call("bn_mod_pre_barrt", u, m)
+        if not ctx.check(not r.caught, "bn_mod_pre_barrt|pos|unexpected-error", {"err": r.err, "m": hx(mm)}):
+            return
+        uu = R.bn_val(u)
+        out = a if alias else c
+        r = R.call("bn_mod_barrt", out, a, m, u)
+        if ctx.check(not r.caught, ctx.cur_key + "|unexpected-error", {"err": r.err}):
+            E.out_bn(out, exp, ctx.cur_key)
+            E.unchanged([(a, x), (m, mm), (u, uu)], ctx.cur_key, (out,))
+
+    # ------------------------------------------------------------------ Montgomery
+    def monty():
+        mm = E.odd_modulus(MAXM)
+        bad = rng.random() < 0.04
+        if bad:
+            mm = rng.choice([mm + 1, -mm, 0])
+            if not ctx.begin("bn_mod_monty|modulus-even-or-negative", [hx(mm)]):
+                return
+            R.bn_put(m, mm)
+            R.bn_put(a, 5)
+            R.bn_put(u, 1)
+            E.junk(c)
+            for fn, args in (("bn_mod_pre_monty", (u, m)), ("bn_mod_monty_conv", (c, a, m)), ("bn_mod_monty_back", (c, a, m)),
+                             ("bn_mod_monty_basic", (c, a, m, u)), ("bn_mod_monty_comba", (c, a, m, u))):
+                r = R.call(fn, *args)
+                ctx.check(r.caught and r.err == NV, fn + "|modulus-even-or-negative|accepted", {"caught": r.caught, "err": r.err, "m": hx(mm)})
+            return
+        k = nd(mm)
+        Rr = 1 << (k * W)
+        Rinv = pow(Rr, -1, mm)
+        op = rng.choice(["conv", "back", "basic", "comba", "basic", "comba", "roundtrip", "mulred"])
+        R.bn_put(m, mm)
+        E.junk(u)
+        r = R.call("bn_mod_pre_monty", u, m)
+        uu = R.bn_val(u)
+        if op == "conv":
+            x = reducible(mm, CAP)
+            if abs(x).bit_length() > (CAP - 3 - k) * W:
+                x %= mm
+            if not ctx.begin("bn_mod_monty_conv|%s|%s" % (sg(x), "lt" if abs(x) < mm else "ge"), [hx(x), hx(mm)], nontrivial=bool(x)):
+                return
+            ctx.check(not r.caught and uu is not None and 0 <= uu < B and (uu * mm + 1) % B == 0, "bn_mod_pre_monty|odd|value", {"u": hx(uu or 0), "m": hx(mm)})
+            R.bn_put(a, x)
+            E.junk(c)
+            alias = rng.randrange(2)
+            out = a if alias else c
+            r = R.call("bn_mod_monty_conv", out, a, m)
+            if ctx.check(not r.caught, ctx.cur_key + "|unexpected-error", {"err": r.err}):
+                E.out_bn(out, x * Rr % mm, ctx.cur_key)
+                E.unchanged([(a, x), (m, mm)], ctx.cur_key, (out,))
+            return
+        if op in ("back", "basic", "comba"):
+            fn = {"back": "bn_mod_monty_back", "basic": "bn_mod_monty_basic", "comba": "bn_mod_monty_comba"}[op]
+            c_ = rng.randrange(8)
+            lim = mm * Rr
+            if c_ == 0:
+                x = rng.randrange(mm)
+            elif c_ == 1:
+                x = lim - 1 - rng.randrange(3)
+            elif c_ == 2:
+                x = mm * rng.randrange(0, Rr)
+            elif c_ == 3:
+                x = rng.choice([0, 1, mm - 1, mm, mm + 1, Rr - 1, Rr, Rr + 1])
+            elif c_ == 4:
+                x = (mm - 1) * (mm - 1)
+            elif c_ == 5:
+                x = E.mag(rng.randrange(1, 2 * k + 1))
+            else:
+                x = rng.randrange(lim)
+            x %= lim
+            if op == "back" and rng.random() < 0.6:
+                x %= mm
+            cls = "lt-m" if x < mm else ("lt-mR" if nd(x) < 2 * k else "full")
+            if not ctx.begin("%s|%s" % (fn, cls), [hx(x), hx(mm)], nontrivial=bool(x)):
+                return
+            R.bn_put(a, x)
+            E.junk(c)
+            alias = rng.randrange(2)
+            out = a if alias else c
+            r = R.call(fn, out, a, m) if op == "back" else R.call(fn, out, a, m, u)
+            if ctx.check(not r.caught, ctx.cur_key + "|unexpected-error", {"err": r.err}):
+                E.out_bn(out, x * Rinv % mm, ctx.cur_key)
+                E.unchanged([(a, x), (m, mm), (u, uu)], ctx.cur_key, (out,))
+            return
+        if op == "roundtrip":
+            x = reducible(mm, CAP)
+            if abs(x).bit_length() > (CAP - 3 - k) * W:
+                x %= mm
+            if not ctx.begin("bn_mod_monty|roundtrip|%s" % sg(x), [hx(x), hx(mm)], nontrivial=bool(x)):
+                return
+            R.bn_put(a, x)
+            E.junk(c, d)
+            r1 = R.call("bn_mod_monty_conv", c, a, m)
+            r2 = R.call("bn_mod_monty_back", d, c, m)
+            if ctx.check(not r1.caught and not r2.caught, ctx.cur_key + "|unexpected-error", None):
+                E.out_bn(d, x % mm, ctx.cur_key)
+            return
+        # product of two Montgomery images reduced = image of the product
+        x, y = rng.randrange(mm), rng.randrange(mm)
+        fn = rng.choice(["bn_mod_monty_basic", "bn_mod_monty_comba"])
+        if not ctx.begin("%s|product-of-images" % fn, [hx(x), hx(y), hx(mm)]):
+            return
+        xi, yi = x * Rr % mm, y * Rr % mm
+        R.bn_put(a, xi * yi)
+        E.junk(c)
+        r = R.call(fn, c, a, m, u)
+        if ctx.check(not r.caught, ctx.cur_key + "|unexpected-error", {"err": r.err}):
+            E.out_bn(c, x * y * Rr % mm, ctx.cur_key)
+
+    # ------------------------------------------------------------------ pseudo-Mersenne
+    def pmers():
+        kb = rng.choice([2, 3, 8, W - 1, W, W + 1, 2 * W, 127, 128, 130, 255, 256, 257, rng.randrange(2, MAXM * W)])
+        kb = min(kb, MAXM * W)
+        cc = rng.choice([1, 1, 3, 5, 19, 189, 255, rng.randrange(1, 1 << max(1, min(kb // 2, 62)))])
+        mm = (1 << kb) - cc
+        if mm < 2 or mm.bit_length() != kb:
+            mm = (1 << kb) - 1
+        if mm < 2:
+            mm = 3
+        kb = mm.bit_length()
+        x = reducible(mm, CAP)
+        if abs(x).bit_length() > (CAP - 4) * W // 2:
+            x >>= abs(x).bit_length() - (CAP - 4) * W // 2
+        exp = x % mm
+        cls = "%s|%s|%s" % (sg(x), "lt" if abs(x) < mm else "ge", "mult" if exp == 0 and x else "rem")
+        alias = rng.randrange(2)
+        if not ctx.begin("bn_mod_pmers|%s|alias%d" % (cls, alias), [hx(x), hx(mm)], nontrivial=bool(x)):
+            return
+        R.bn_put(a, x)
+        R.bn_put(m, mm)
+        E.junk(u, c)
+        r = R.call("bn_mod_pre_pmers", u, m)
+        uu = R.bn_val(u)
+        ctx.check(not r.caught and uu == (1 << kb) - mm, "bn_mod_pre_pmers|value", {"u": hx(uu or 0), "m": hx(mm)})
+        out = a if alias else c
+        r = R.call("bn_mod_pmers", out, a, m, u)
+        if ctx.check(not r.caught, ctx.cur_key + "|unexpected-error", {"err": r.err}):
+            E.out_bn(out, exp, ctx.cur_key)
+            E.unchanged([(a, x), (m, mm), (u, uu)], ctx.cur_key, (out,))
+
+    # ------------------------------------------------------------------ inverse
+    def coprime_to(mm, signed=True):
+        for _ in range(50):
+            x = E.operand(nd(mm) + 2, signed=signed, zero_ok=False)
+            if rng.random() < 0.3:
+                x %= mm
+            if x and math.gcd(x, mm) == 1:
+                return x
+        return 1
+
+    def inv():
+        mm = E.modulus(MAXM)
+        if rng.random() < 0.75:
+            x = coprime_to(mm)
+        else:
+            x = E.operand(nd(mm) + 1)
+        g = math.gcd(x, mm)
+        par = "odd" if mm & 1 else "even"
+        if g != 1:
+            if not ctx.begin("bn_mod_inv|non-invertible|%s" % par, [hx(x), hx(mm)]):
+                return
+            R.bn_put(a, x)
+            R.bn_put(m, mm)
+            E.junk(c)
+            r = R.call("bn_mod_inv", c, a, m)
+            ctx.check(r.caught, ctx.cur_key + "|accepted", {"got": hx(R.bn_val(c) or 0)})
+            return
+        rel = "lt" if abs(x) < mm else "ge"
+        alias = rng.randrange(2)
+        if not ctx.begin("bn_mod_inv|%s|%s|%s|alias%d" % (sg(x), rel, par, alias), [hx(x), hx(mm)]):
+            return
+        R.bn_put(a, x)
+        R.bn_put(m, mm)
+        E.junk(c)
+        out = a if alias else c
+        r = R.call("bn_mod_inv", out, a, m)
+        if ctx.check(not r.caught, ctx.cur_key + "|unexpected-error", {"err": r.err}):
+            E.out_bn(out, pow(x, -1, mm), ctx.cur_key)
+            E.unchanged([(a, x), (m, mm)], ctx.cur_key, (out,))
+
+    def inv_sim():
+        mm = E.modulus(MAXM // 2)
+        n = rng.choice([1, 2, 3, 5, 8])
+        xs = [coprime_to(mm, signed=False) % mm or 1 for _ in range(n)]
+        bad = rng.random() < 0.1
+        if bad:
+            g = next((q for q in nt.SMALL_PRIMES[:30] if mm % q == 0), None)
+            if g is None or g >= mm:
+                bad = False
+            else:
+                xs[rng.randrange(n)] = g
+        if any(math.gcd(x, mm) != 1 for x in xs):
+            bad = True
+        if not ctx.begin("bn_mod_inv_sim|%s|n%s" % ("non-invertible" if bad else "ok", "1" if n == 1 else ">1"), [[hx(x) for x in xs], hx(mm)]):
+            return
+        pa, pc = E.arr_new(n), E.arr_new(n)
+        try:
+            for i, x in enumerate(xs):
+                R.bn_put(E.arr_at(pa, i), x)
+                R.bn_put(E.arr_at(pc, i), rng.getrandbits(66))
+            R.bn_put(m, mm)
+            r = R.call("bn_mod_inv_sim", pc, pa, m, n)
+            if bad:
+                ctx.check(r.caught, ctx.cur_key + "|accepted", None)
+            elif ctx.check(not r.caught, ctx.cur_key + "|unexpected-error", {"err": r.err}):
+                for i, x in enumerate(xs):
+                    E.out_bn(E.arr_at(pc, i), pow(x, -1, mm), ctx.cur_key)
+                    E.unchanged([(E.arr_at(pa, i), x)], ctx.cur_key)
+        finally:
+            R.free(pa)
+            R.free(pc)
+
+    # ------------------------------------------------------------------ exponentiation
+    def exponent(mm):
+        c_ = rng.randrange(12)
+        k = nd(mm)
+        if c_ == 0:
+            return 0
+        if c_ == 1:
+            return rng.choice([1, 2, 3])
+        if c_ == 2:
+            return -rng.choice([1, 2, 3, E.mag(rng.randrange(1, k + 1)) or 1])
+        if c_ == 3:
+            return E.mag(k + rng.randrange(1, max(2, k // 2 + 1))) or 1      # longer than the modulus
+        if c_ == 4:
+            return (1 << rng.randrange(1, k * W)) - rng.randrange(2)
+        if c_ == 5:
+            return mm - 1
+        return E.mag(rng.randrange(1, k + 1)) or 1
+
+    def ecls(ev):
+        return "e0" if ev == 0 else ("eneg" if ev < 0 else ("e1" if ev == 1 else "e"))
+
+    def mxp_verdict(key, out, x, ev, mm, r, ins):
+        """common verdict of a^e mod m"""
+        if mm > 1 and ev < 0 and math.gcd(x, mm) != 1:
+            ctx.check(r.caught, key + "|accepted-non-invertible", {"got": hx(R.bn_val(out) or 0)})
+            return
+        if r.caught:
+            # even moduli are rejected by the Montgomery configuration (DESIGN 11): accepted as an error
+            ctx.check(mm % 2 == 0 and E.monty, key + "|unexpected-error", {"err": r.err})
+            return
+        E.out_bn(out, pow(x, ev, mm), key)
+        E.unchanged(ins, key, (out,))
+
+    def mxp():
+        fn = rng.choice(["bn_mxp_basic", "bn_mxp_slide", "bn_mxp_monty", "bn_mxp"])
+        mm = E.modulus(MXPM) if rng.random() < 0.8 else rng.choice([1, 2, 3, 4])
+        x = E.operand(min(nd(mm) + 2, CAP // 2 - 1))
+        if rng.random() < 0.5:
+            x %= mm
+        ev = exponent(mm)
+        if E.w8 and abs(ev).bit_length() > 200:
+            ev >>= abs(ev).bit_length() - 200
+        mc = "m1" if mm == 1 else ("odd" if mm & 1 else "even")
+        alias = rng.randrange(3)
+        key = "%s|%s|%s|%s|alias%d" % (fn, sg(x), ecls(ev), mc, alias)
+        if not ctx.begin(key, [hx(x), hx(ev), hx(mm)], nontrivial=bool(x)):
+            return
+        R.bn_put(a, x)
+        R.bn_put(b, ev)
+        R.bn_put(m, mm)
+        E.junk(c)
+        out = (c, a, b)[alias]
+        r = R.call(fn, out, a, b, m)
+        mxp_verdict(key, out, x, ev, mm, r, [(a, x), (b, ev), (m, mm)])
+
+    def mxp_dig():
+        mm = E.modulus(MXPM) if rng.random() < 0.85 else rng.choice([1, 2, 3])
+        x = E.operand(min(nd(mm) + 2, CAP // 2 - 1))
+        ev = rng.choice([0, 1, 2, 3, B - 1, B >> 1, rng.randrange(B), rng.randrange(B)])
+        mc = "m1" if mm == 1 else ("odd" if mm & 1 else "even")
+        key = "bn_mxp_dig|%s|%s|%s" % (sg(x), ecls(ev), mc)
+        if not ctx.begin(key, [hx(x), hx(ev), hx(mm)], nontrivial=bool(x)):
+            return
+        R.bn_put(a, x)
+        R.bn_put(m, mm)
+        E.junk(c)
+        alias = rng.randrange(2)
+        out = a if alias else c
+        r = R.call("bn_mxp_dig", out, a, ev, m)
+        mxp_verdict(key, out, x, ev, mm, r, [(a, x), (m, mm)])
+
+    def mxp_sim():
+        fn = rng.choice(["bn_mxp_sim", "bn_mxp_sim_few", "bn_mxp_sim_few", "bn_mxp_sim_lot", "bn_mxp_sim_lot"])
+        mm = E.modulus(MXPM // 2)
+        if rng.random() < 0.05:
+            mm = 1
+        n = 2 if fn == "bn_mxp_sim" else (rng.choice([0, 1, 2, 3, 5, 8, 9]) if fn == "bn_mxp_sim_few" else rng.choice([0, 1, 2, 7, 8, 9, 10, 16, 17]))
+        if E.w8 and n > 9:
+            n = 9
+        neg = rng.random() < 0.06
+        xs, es = [], []
+        for i in range(n):
+            xs.append(E.operand(nd(mm) + 1) if rng.random() < 0.3 else rng.randrange(mm))
+            ev = rng.choice([0, 1, 2, E.mag(rng.randrange(1, nd(mm) + 1)), E.mag(1), rng.getrandbits(rng.choice([1, 8, 64, 100]))])
+            if E.w8:
+                ev &= (1 << 96) - 1
+            es.append(ev)
+        if neg and n:
+            i = rng.randrange(n)
+            es[i] = -(es[i] or 1)
+            xs[i] = coprime_to(mm)
+        exp = 1 % mm
+        ok = True
+        for x, ev in zip(xs, es):
+            if ev < 0 and math.gcd(x, mm) != 1:
+                ok = False
+            else:
+                exp = exp * pow(x, ev, mm) % mm
+        ncls = "n0" if n == 0 else ("n1" if n == 1 else ("n>8" if n > 8 else "n2-8"))
+        mc = "m1" if mm == 1 else ("odd" if mm & 1 else "even")
+        key = "%s|%s|%s|%s" % (fn, ncls, "eneg" if neg and n else "e", mc)
+        if not ctx.begin(key, [[hx(x) for x in xs], [hx(v) for v in es], hx(mm)], nontrivial=n > 0):
+            return
+        R.bn_put(m, mm)
+        E.junk(c)
+        if fn == "bn_mxp_sim":
+            R.bn_put(a, xs[0])
+            R.bn_put(b, es[0])
+            R.bn_put(d, xs[1])
+            R.bn_put(e, es[1])
+            r = R.call(fn, c, a, b, d, e, m)
+        else:
+            pa, pb = E.arr_new(n), E.arr_new(n)
+            for i in range(n):
+                R.bn_put(E.arr_at(pa, i), xs[i])
+                R.bn_put(E.arr_at(pb, i), es[i])
+            r = R.call(fn, c, pa, pb, m, n)
+            for i in range(n):
+                E.unchanged([(E.arr_at(pa, i), xs[i]), (E.arr_at(pb, i), es[i])], key)
+            R.free(pa)
+            R.free(pb)
+        if fn == "bn_mxp_sim_few" and n > 8 and mm != 1:
+            ctx.check(r.caught, key + "|accepted", None)        # documented: up to 8 integers
+            return
+        if not ok:
+            ctx.check(r.caught, key + "|accepted-non-invertible", None)
+            return
+        if r.caught:
+            ctx.check(mm % 2 == 0 and E.monty, key + "|unexpected-error", {"err": r.err})
+            return
+        E.out_bn(c, exp, key)
+
+    # ------------------------------------------------------------------ CRT exponentiation
+    S = R.S
+    S.vf_crt_new.restype = ctypes.c_void_p
+    S.vf_crt_field.restype = ctypes.c_void_p
+    S.vf_crt_field.argtypes = [ctypes.c_void_p, ctypes.c_int]
+    S.vf_deref.restype = ctypes.c_void_p
+    S.vf_deref.argtypes = [ctypes.c_void_p]
+    crt = S.vf_crt_new()
+    crtf = [S.vf_crt_field(crt, i) for i in range(6)]      # n p q dp dq qi
+    crt_arg = S.vf_deref(crt)
+    prime_cache = []
+
+    def two_primes():
+        bits = rng.choice([16, 32, 48, 64] if E.w8 else [16, 32, 64, 65, 128, 192, 256])
+        if len(prime_cache) < 12 or rng.random() < 0.2:
+            prime_cache.append(nt.rand_prime(rng, bits))
+            prime_cache.append(nt.rand_prime(rng, bits + rng.choice([0, 0, 1, 7])))
+        while True:
+            p, q = rng.sample(prime_cache, 2)
+            if p != q and p > 2 and q > 2:
+                return p, q
+
+    def mxp_crt():
+        p, q = two_primes()
+        n = p * q
+        sqr = rng.random() < 0.4
+        if not sqr:
+            x = rng.choice([0, 1, 2, n - 1, rng.randrange(n * n), rng.randrange(n)])
+            base = rng.choice([0, 1, n - 1, rng.randrange(n), rng.randrange(n), p, q * 3 % n])
+            exp = pow(base, x, n)
+            vals = [n, p, q, x % (p - 1), x % (q - 1), pow(q, -1, p)]
+            eb, ec = x % (p - 1), x % (q - 1)
+            key = "bn_mxp_crt|mod-n|%s" % ("base-shares-factor" if math.gcd(base, n) != 1 else "unit")
+        else:
+            g = n + 1
+            msg = rng.choice([0, 1, 2, n - 1, rng.randrange(n)])
+            rr = rng.randrange(1, n)
+            while math.gcd(rr, n) != 1:
+                rr = rng.randrange(1, n)
+            base = (1 + msg * n) * pow(rr, n, n * n) % (n * n)
+            hp = pow((pow(g, p - 1, p * p) - 1) // p, -1, p)
+            hq = pow((pow(g, q - 1, q * q) - 1) // q, -1, q)
+            vals = [n, p, q, hp, hq, pow(q, -1, p)]
+            eb, ec = p - 1, q - 1
+            exp = msg
+            key = "bn_mxp_crt|mod-n^2|paillier"
+        if not ctx.begin(key, [hx(base), hx(eb), hx(ec), hx(p), hx(q), int(sqr)]):
+            return
+        for ptr, v in zip(crtf, vals):
+            R.bn_put(ptr, v)
+        R.bn_put(a, base)
+        R.bn_put(b, eb)
+        R.bn_put(c, ec)
+        E.junk(d)
+        r = R.call("bn_mxp_crt", d, a, b, c, crt_arg, int(sqr))
+        if ctx.check(not r.caught, key + "|unexpected-error", {"err": r.err}):
+            E.out_bn(d, exp, key)
+            E.unchanged([(a, base), (b, eb), (c, ec)] + list(zip(crtf, vals)), key)
+
+    ops = ([mod_2b] * 3 + [mod_basic] * 3 + [barrt] * 5 + [monty] * 8 + [pmers] * 4 + [inv] * 4 + [inv_sim] + [mxp] * 7 + [mxp_dig] * 2 +
+           [mxp_sim] * 3 + [mxp_crt])
+    N = ctx.n(1500 if E.w8 else 3200, 60000)
+    for _ in range(N):
+        E.newpoison()
+        guard(ctx, rng.choice(ops))
+
+
+def run(ctx, part):
+    R = RT(ctx.cfg)
+    R.strict_chain = True
+    E = Env(ctx, R)
+    ctx.note("digit_bits", str(R.DIG))
+    ctx.note("capacity_digits", str(R.BN_SIZE))
+    ctx.note("dispatch", {k: R.target(k) for k in ("bn_mul", "bn_sqr", "bn_mxp", "bn_gcd", "bn_gcd_ext", "bn_gen_prime", "bn_mod_pre", "bn_mod_monty")})
+    # the library generator is deterministic (-DSEED=): reseed it from the case generator so that prime generation and
+    # the Solovay-Strassen witnesses vary with VERIF_SEED and shard
+    sd = R.put(ctx.rng.getrandbits(256).to_bytes(32, "big"))
+    R.call("rand_seed", sd, 32)
+    R.free(sd)
+    globals()["run_" + part](E)
+    ctx.note("functions_exercised", sorted(R.fn_seen))
+    ctx.note("error_codes_seen", {str(k): v for k, v in R.err_codes.items()})
